@@ -251,7 +251,7 @@ bad:
 }
 
 /* ---------------------------------------------------------------- one case */
-static uint64_t n_final[5], n_fallback_runs, n_calls, n_chainlen[MAXPOL + 1], n_ranpol[MAXPOL + 1], n_viol_total, n_deep, n_deep10;
+static uint64_t n_final[5], n_fallback_runs, n_calls, n_chainlen[MAXPOL + 1], n_ranpol[MAXPOL + 1], n_viol_total, n_deep, n_deep10, n_wrapper_calls;
 static char seen_keys[64][160]; static int n_seen_keys;
 static int verbose;
 
@@ -396,6 +396,26 @@ static void run_case(Chain *c, KSI_VerificationContext *vc) {
 		}
 	}
 done:
+	/* 4b. the same chain through the convenience entry point KSI_Signature_verifyWithPolicy (caller context given / not given): the same rules
+	 * in the same order, KSI_OK exactly for the verdict OK, KSI_VERIFICATION_FAILURE for FAIL and inconclusive, the internal error otherwise */
+	{ static uint64_t turn; if (turn++ % 3 == 0) {
+		int keep_n = g_nlog, keep_log[MAXLOG], rc2, want, stale = g_td_stale, k; KSI_VerificationContext *given = (turn / 3) % 2 ? vc : NULL;
+		memcpy(keep_log, g_log, sizeof keep_log);
+		g_nlog = 0; g_cur_pol = -1;
+		rc2 = KSI_Signature_verifyWithPolicy(vc->signature, NULL, 0, c->pol[0], given);
+		want = fin.rc != KSI_OK ? fin.rc : fin.res == KSI_VER_RES_OK ? KSI_OK : KSI_VERIFICATION_FAILURE;
+		n_wrapper_calls++;
+		if (rc2 != want) {
+			snprintf(key, sizeof(key), "verifyWithPolicy:%s:returns-0x%x-for-%s", given ? "context-given" : "no-context", rc2, fin.rc != KSI_OK ? "internal-error" : RN(fin.res));
+			snprintf(detail, sizeof(detail), "KSI_Signature_verifyWithPolicy returned 0x%x; the chain ends with %s (expected status 0x%x)", rc2, fin.rc != KSI_OK ? "an internal error" : RN(fin.res), want);
+			report(c, key, detail);
+		} else {
+			for (k = 0; k < g_nlog && k < ref_nlog && k < MAXLOG && g_log[k] == ref_log[k]; k++);
+			if (k < g_nlog || k < ref_nlog) { snprintf(key, sizeof(key), "verifyWithPolicy:%s:other-rules-invoked", given ? "context-given" : "no-context"); report(c, key, "KSI_Signature_verifyWithPolicy invoked another sequence of rules than the reference evaluation"); }
+		}
+		if (vc->signature == NULL) report(c, "verifyWithPolicy:caller-context-modified", "the caller's context lost its signature");
+		g_nlog = keep_n; memcpy(g_log, keep_log, sizeof keep_log); g_td_stale = stale;
+	} }
 	/* 5. temporary data of one policy must not be visible to the next one */
 	if (g_td_stale) report(c, "verify:tempdata-not-cleared-before-fallback", "the first rule of a fallback policy found temporary data left over by the previous policy");
 	if (result != NULL) KSI_PolicyVerificationResult_free(result);
@@ -531,6 +551,7 @@ int main(int argc, char **argv) {
 	vh_count("final_OK", n_final[0]); vh_count("final_NA", n_final[1]); vh_count("final_FAIL", n_final[2]); vh_count("final_internal_error", n_final[3]);
 	vh_count("final_NA_from_untouched_result", n_final[4]);
 	vh_count("policies_replaced_by_their_clone", n_cloned);
+	vh_count("verify_with_policy_wrapper_calls", n_wrapper_calls);
 	vh_count("fallback_policy_runs", n_fallback_runs); vh_count("rule_invocations", n_calls); vh_count("cases_with_4plus_rules_invoked", n_deep);
 	for (i = 1; i <= MAXPOL; i++) { char nm[48]; snprintf(nm, sizeof(nm), "chains_of_%d_policies", i); vh_count(nm, n_chainlen[i]); snprintf(nm, sizeof(nm), "cases_%d_policies_ran", i); vh_count(nm, n_ranpol[i]); }
 	for (i = 0; i < N_OUT; i++) { char nm[48]; snprintf(nm, sizeof(nm), "invoked_%s", OUTNAME[i]); vh_count(nm, n_invoked[i]); }
